@@ -279,7 +279,28 @@ pub(crate) fn transport_dial(via: &str, host: &str, d: usize, l: usize, expected
                 }
                 TransportEvent::ConnectionEstablished { peer, endpoint } => {
                     let _ = dialer.reject(endpoint.connection_id());
-                    break format!("{}:{}", if opened { "opened" } else { "established" }, key_name(&peer));
+                    // the address the transport reports for the connection (what the manager will score),
+                    // next to the one that was dialed
+                    let mut parts = endpoint.address().iter();
+                    let mut ep = match parts.next() {
+                        Some(Protocol::Ip4(ip)) if ip == Ipv4Addr::LOCALHOST => "ip4".to_string(),
+                        Some(Protocol::Ip6(ip)) if ip == Ipv6Addr::LOCALHOST => "ip6".to_string(),
+                        Some(Protocol::Dns(name)) if name == "localhost" => "dns".to_string(),
+                        Some(Protocol::Dns4(name)) if name == "localhost" => "dns4".to_string(),
+                        Some(Protocol::Dns6(name)) if name == "localhost" => "dns6".to_string(),
+                        _ => "other".to_string(),
+                    };
+                    match parts.next() {
+                        Some(Protocol::Tcp(p)) if p == port => {}
+                        _ => ep.push_str("!port"),
+                    }
+                    if parts.next().is_some() {
+                        ep.push_str("+more");
+                    }
+                    if endpoint.is_listener() {
+                        ep.push_str("!listener");
+                    }
+                    break format!("{}:{} ep={ep}", if opened { "opened" } else { "established" }, key_name(&peer));
                 }
                 TransportEvent::OpenFailure { errors, .. } => {
                     let mut classes: Vec<&str> = errors.iter().map(|(_, e)| dial_class(e)).collect();
@@ -300,5 +321,295 @@ pub(crate) fn transport_dial(via: &str, host: &str, d: usize, l: usize, expected
         };
         accepting.abort();
         format!("D={result}")
+    })
+}
+
+// ---------------------------------------------------------------------------------------------
+// `pn`: `impl Stream for TcpTransport` polled the way an executor polls it.
+//
+// A real `TcpTransport` whose internal queues are filled with a scripted multiset of READY results
+// (`q=<item>,...`, pushed in the given order; the connection id of item `k` is `100 + k`):
+//
+//   pending_connections      `ci` Err(id), id unknown to `pending_dials` (a failed INBOUND negotiation: swallowed)
+//                            `cf` Err(id), id in `pending_dials` (failed dial)              -> DialFailure
+//                            `cs` Ok(negotiated), id in `pending_dials` (successful dial)   -> ConnectionEstablished
+//                            `cn` Ok(negotiated), id unknown (negotiated inbound / `open`)  -> ConnectionEstablished
+//   pending_raw_connections  `rf` Failed(id), cancel handle present                         -> OpenFailure
+//                            `rx` Failed(id), handle aborted (swallowed), `rh` Failed(id) without a handle (swallowed)
+//                            `rc` Canceled(id), handle aborted (swallowed)
+//                            `ro` Connected(negotiated), handle present                     -> ConnectionOpened
+//                            `rA` Connected, handle aborted (swallowed), `rO` Connected without a handle (swallowed)
+//
+// Every `NegotiatedConnection` is a real one (`negotiate_connection` over a loopback connection).
+// `in=<n>`: `n` real TCP connections are waiting in the accept queue of the transport's listener
+// (`acc=1`: each is accepted with `accept_pending`, the remote has hung up: a real failed inbound
+// negotiation; `acc=0`: `reject_pending`). `neg=1`: when the stream is exhausted, `negotiate(id)` for
+// every connection in `opened`, then the stream is driven again.
+//
+// The stream is polled with a COUNTING waker: again after every item, and after `Pending` only when
+// the waker was called (the runtime's reactor and timers keep running meanwhile). Observation:
+// `ev=[..]` the items in order, `in=<n>` the `PendingInboundConnection`s, the keys of the maps, and
+// `lost=<n>`: futures still sitting in the two queues when the task would sleep forever.
+
+use super::super::RawConnectionResult;
+use super::NegotiatedConnection;
+use futures::{future::AbortHandle, Stream};
+use std::{
+    pin::Pin,
+    sync::atomic::{AtomicUsize, Ordering},
+    task::{Context, Poll, Wake, Waker},
+};
+
+struct CountingWaker(AtomicUsize);
+
+impl Wake for CountingWaker {
+    fn wake(self: Arc<Self>) {
+        self.0.fetch_add(1, Ordering::SeqCst);
+    }
+
+    fn wake_by_ref(self: &Arc<Self>) {
+        self.0.fetch_add(1, Ordering::SeqCst);
+    }
+}
+
+/// A real negotiated connection (dialer side) with connection id `id`; the listener side is returned
+/// as well so that the socket stays open.
+async fn negotiated(id: usize) -> Option<(NegotiatedConnection, NegotiatedConnection)> {
+    let listener = TcpListener::bind("127.0.0.1:0").await.ok()?;
+    let addr = listener.local_addr().ok()?;
+    let (a, b) = tokio::join!(TcpStream::connect(addr), listener.accept());
+    let (ds, ls) = (a.ok()?, b.ok()?.0);
+    let t = Duration::from_secs(10);
+    let (a, b) = tokio::join!(
+        TcpConnection::negotiate_connection(
+            ds,
+            None,
+            ConnectionId::from(id),
+            key(2),
+            Role::Dialer,
+            AddressType::Socket(addr),
+            Default::default(),
+            crate::crypto::noise::MAX_READ_AHEAD_FACTOR,
+            crate::crypto::noise::MAX_WRITE_BUFFER_SIZE,
+            t,
+        ),
+        TcpConnection::negotiate_connection(
+            ls,
+            None,
+            ConnectionId::from(id + 1000),
+            key(1),
+            Role::Listener,
+            AddressType::Socket(addr),
+            Default::default(),
+            crate::crypto::noise::MAX_READ_AHEAD_FACTOR,
+            crate::crypto::noise::MAX_WRITE_BUFFER_SIZE,
+            t,
+        )
+    );
+    Some((a.ok()?, b.ok()?))
+}
+
+pub(crate) const PN_ITEMS: [&str; 11] = ["ci", "cf", "cs", "cn", "rf", "rx", "rh", "rc", "ro", "rA", "rO"];
+
+pub(crate) fn poll_script(items: &[&str], inbound: usize, accept: bool, neg: bool) -> String {
+    let rt = tokio::runtime::Builder::new_current_thread().enable_all().build().expect("runtime");
+    let items: Vec<String> = items.iter().map(|s| s.to_string()).collect();
+    rt.block_on(async move {
+        let Some(resolver) = resolver() else { return "env:resolver".to_string() };
+        let listen = if inbound > 0 { vec!["/ip4/127.0.0.1/tcp/0".parse().expect("addr")] } else { Vec::new() };
+        let Some((mut transport, bound, _keep)) = make_transport(0, listen, resolver) else {
+            return "env:unavailable".to_string();
+        };
+        let id_of = |k: usize| ConnectionId::from(100 + k);
+        let n = items.len();
+        let name = move |id: ConnectionId| match (0..n).find(|k| ConnectionId::from(100 + k) == id) {
+            Some(k) => k.to_string(),
+            None => "?".to_string(),
+        };
+        let mut keep_remote = Vec::new();
+        for (k, item) in items.iter().enumerate() {
+            let id = id_of(k);
+            let address = Multiaddr::empty()
+                .with(Protocol::Ip4(Ipv4Addr::LOCALHOST))
+                .with(Protocol::Tcp(1000 + k as u16))
+                .with(Protocol::P2p(key(1).public().to_peer_id().into()));
+            let connection = if ["cs", "cn", "ro", "rA", "rO"].contains(&item.as_str()) {
+                match negotiated(100 + k).await {
+                    Some((a, b)) => {
+                        keep_remote.push(b);
+                        Some(a)
+                    }
+                    None => return "env:unavailable".to_string(),
+                }
+            } else {
+                None
+            };
+            let handle = |aborted: bool| {
+                let (handle, _registration) = AbortHandle::new_pair();
+                if aborted {
+                    handle.abort();
+                }
+                handle
+            };
+            match (item.as_str(), connection) {
+                ("ci", _) => transport
+                    .pending_connections
+                    .push(Box::pin(async move { Err((id, DialError::Timeout)) })),
+                ("cf", _) => {
+                    transport.pending_dials.insert(id, address);
+                    transport.pending_connections.push(Box::pin(async move { Err((id, DialError::Timeout)) }));
+                }
+                ("cs", Some(c)) => {
+                    transport.pending_dials.insert(id, address);
+                    transport.pending_connections.push(Box::pin(async move { Ok(c) }));
+                }
+                ("cn", Some(c)) => transport.pending_connections.push(Box::pin(async move { Ok(c) })),
+                ("rf", _) | ("rx", _) | ("rh", _) => {
+                    if item != "rh" {
+                        transport.cancel_futures.insert(id, handle(item == "rx"));
+                    }
+                    transport.pending_raw_connections.push(Box::pin(async move {
+                        RawConnectionResult::Failed { connection_id: id, errors: vec![(address, DialError::Timeout)] }
+                    }));
+                }
+                ("rc", _) => {
+                    transport.cancel_futures.insert(id, handle(true));
+                    transport
+                        .pending_raw_connections
+                        .push(Box::pin(async move { RawConnectionResult::Canceled { connection_id: id } }));
+                }
+                ("ro", Some(c)) | ("rA", Some(c)) | ("rO", Some(c)) => {
+                    if item != "rO" {
+                        transport.cancel_futures.insert(id, handle(item == "rA"));
+                    }
+                    transport.pending_raw_connections.push(Box::pin(async move {
+                        RawConnectionResult::Connected { negotiated: c, errors: Vec::new() }
+                    }));
+                }
+                _ => return "bad-op".to_string(),
+            }
+        }
+
+        // the remote ends of the inbound connections (in the accept queue before the first poll)
+        let mut remotes = Vec::new();
+        if inbound > 0 {
+            let Some(port) = bound.first().and_then(|a| {
+                a.iter().find_map(|c| match c {
+                    Protocol::Tcp(p) => Some(p),
+                    _ => None,
+                })
+            }) else {
+                return "env:unavailable".to_string();
+            };
+            for _ in 0..inbound {
+                match std::net::TcpStream::connect(("127.0.0.1", port)) {
+                    Ok(stream) if accept => drop(stream),
+                    Ok(stream) => remotes.push(stream),
+                    Err(_) => return "env:unavailable".to_string(),
+                }
+            }
+        }
+
+        let counter = Arc::new(CountingWaker(AtomicUsize::new(0)));
+        let waker = Waker::from(Arc::clone(&counter));
+        let mut cx = Context::from_waker(&waker);
+        let mut events: Vec<String> = Vec::new();
+        let mut seen_inbound = 0usize;
+        let mut pending_ok = 0usize;
+        let mut closed = false;
+        // how long the task may stay asleep before it is declared asleep for good
+        let quiet = Duration::from_millis(if inbound > 0 { 2000 } else { 40 });
+        let mut rounds = if neg { 2 } else { 1 };
+        while rounds > 0 {
+            rounds -= 1;
+            let mut seen = counter.0.load(Ordering::SeqCst);
+            'executor: loop {
+                match Pin::new(&mut transport).poll_next(&mut cx) {
+                    Poll::Ready(None) => {
+                        closed = true;
+                        break 'executor;
+                    }
+                    Poll::Ready(Some(event)) => match event {
+                        TransportEvent::PendingInboundConnection { connection_id } => {
+                            seen_inbound += 1;
+                            let first = if accept {
+                                transport.accept_pending(connection_id)
+                            } else {
+                                transport.reject_pending(connection_id)
+                            };
+                            // the entry is consumed: a second decision finds nothing
+                            let second = transport.reject_pending(connection_id);
+                            if first.is_ok() && second.is_err() {
+                                pending_ok += 1;
+                            }
+                        }
+                        TransportEvent::ConnectionOpened { connection_id, .. } =>
+                            events.push(format!("CO{}", name(connection_id))),
+                        TransportEvent::OpenFailure { connection_id, .. } =>
+                            events.push(format!("OF{}", name(connection_id))),
+                        TransportEvent::ConnectionEstablished { endpoint, .. } =>
+                            events.push(format!("CE{}", name(endpoint.connection_id()))),
+                        TransportEvent::DialFailure { connection_id, .. } =>
+                            events.push(format!("DF{}", name(connection_id))),
+                        _ => events.push("other".to_string()),
+                    },
+                    Poll::Pending => {
+                        // an executor polls again only when the waker was called
+                        let asleep = std::time::Instant::now();
+                        loop {
+                            let now = counter.0.load(Ordering::SeqCst);
+                            if now != seen {
+                                seen = now;
+                                continue 'executor;
+                            }
+                            let waiting = inbound > 0
+                                && (seen_inbound < inbound
+                                    || !transport.pending_connections.is_empty()
+                                    || !transport.pending_raw_connections.is_empty());
+                            if asleep.elapsed() >= quiet || (inbound > 0 && !waiting) {
+                                break 'executor;
+                            }
+                            tokio::time::sleep(Duration::from_millis(2)).await;
+                        }
+                    }
+                }
+            }
+            if closed {
+                break;
+            }
+            if rounds > 0 {
+                let mut opened: Vec<usize> =
+                    (0..n).filter(|k| transport.opened.contains_key(&id_of(*k))).collect();
+                opened.sort();
+                for k in opened {
+                    let first = transport.negotiate(id_of(k));
+                    let second = transport.negotiate(id_of(k));
+                    events.push(format!("neg{k}:{}", if first.is_ok() && second.is_err() { "ok" } else { "bad" }));
+                }
+            }
+        }
+        let lost = transport.pending_connections.len() + transport.pending_raw_connections.len();
+        let keys = |has: &dyn Fn(&ConnectionId) -> bool| -> String {
+            let v: Vec<String> = (0..n).filter(|k| has(&id_of(*k))).map(|k| k.to_string()).collect();
+            v.join("+")
+        };
+        let dials = keys(&|id| transport.pending_dials.contains_key(id));
+        let handles = keys(&|id| transport.cancel_futures.contains_key(id));
+        let opened = keys(&|id| transport.opened.contains_key(id));
+        let popen = keys(&|id| transport.pending_open.contains_key(id));
+        // `pending_open` is consumed by the manager's verdict: exactly once
+        let mut verdicts = 0usize;
+        let held: Vec<usize> = (0..n).filter(|k| transport.pending_open.contains_key(&id_of(*k))).collect();
+        for k in &held {
+            if transport.reject(id_of(*k)).is_ok() && transport.reject(id_of(*k)).is_err() {
+                verdicts += 1;
+            }
+        }
+        drop(remotes);
+        format!(
+            "ev=[{}] in={seen_inbound}:{pending_ok} dials=[{dials}] handles=[{handles}] opened=[{opened}] popen=[{popen}] rej={verdicts} lost={lost}{}",
+            events.join(","),
+            if closed { " closed" } else { "" },
+        )
     })
 }
